@@ -23,6 +23,7 @@ RULE = (
     "harness error, exit 2) has the same normalised value in the restored project as in the original; (5) the "
     "restored project re-simulates to the same dump as a fresh build. extra(): the parameter table is also "
     "enumerated exhaustively on a 'kitchen sink' model in which every parameter has a non-default value, at four "
+    'A dense profile saves paused runs in which several worker-facility pairs work on one task; teams and workplaces may have parent links; IDs may be shared across kinds. '
     "life stages. Non-trivial = a round trip at a paused or backward-finished stage, or with a sub-project task; "
     "distinct by case hash."
 )
@@ -279,11 +280,24 @@ def _case(draw, cfg):
     return {"spec": spec, "ops": [list(o) for o in ops] + [["save_load", 0, False]]}
 
 
+CFG_DENSE = CFG.copy(min_comps=1, min_wps=1, max_wps=2, max_facs_per_wp=3, min_tasks=2, max_tasks=5, max_workers=4, inputs=False, onesided=0, servable=0,
+                     work_pool=[2.0, 3.0, 4.0, 6.0, 8.0], progress=False, p_auto=0, kinds=[0, 0, 1])
+
+
+@st.composite
+def _case_dense(draw, cfg):
+    """Several worker-facility pairs on one task at the moment of saving (paused runs): the order of the two parallel
+    allocation lists of a task is part of what is saved."""
+    spec = draw(gen.dense_pairs_spec(cfg, max_workers=4))
+    k = draw(st.integers(1, 6))
+    return {"spec": spec, "ops": [["pause", k, False], ["save_load", 0, False]] + ([["pause", k + draw(st.integers(1, 4)), True], ["save_load", 0, False]] if draw(st.booleans()) else [])}
+
+
 def strategy(tier):
     if tier == "quick":
-        return st.one_of(_case(CFG), _case(CFG), _case(CFG_N))
+        return st.one_of(_case(CFG), _case(CFG), _case(CFG_N), _case_dense(CFG_DENSE))
     big = dict(max_tasks=9)
-    return st.one_of(_case(CFG.copy(**big)), _case(CFG.copy(**big)), _case(CFG_N.copy(**big)))
+    return st.one_of(_case(CFG.copy(**big)), _case(CFG.copy(**big)), _case(CFG_N.copy(**big)), _case_dense(CFG_DENSE.copy(max_tasks=7)))
 
 
 def budget(tier):
